@@ -53,6 +53,8 @@ theorem invB_loc_api {s : State} {t : Tid} {e : Event} {x' : Thr} (hi : InvB s) 
   | semPdRetTimedC k d hl hd hn => locB_case hl
   | noteSeen hl => rcases hl with hl | hl | hl <;> locB_case hl
   | noteNotify hl ht => locB_case hl
+  | callDebug k hl => locB_case hl
+  | retDebug k hl hk => locB_case hl
   | _ => simp [Event.isAtomic] at he
 
 end NsyncVerif.CvFix
